@@ -106,6 +106,9 @@ class MemoryWorkflowStore(AbstractWorkflowStore):
 
     async def update(self, handler: PersistentHandler) -> None:
         self.handlers[handler.handler_id] = handler
+        # One queue entry per completed handler: a repeated terminal update moves
+        # the handler to the newest end, a non-terminal upsert drops its entry.
+        self._forget_completion(handler.handler_id)
         if is_terminal_status(handler.status):
             self._terminal_queue.append(handler.handler_id)
             self._evict_oldest_completed()
@@ -118,7 +121,15 @@ class MemoryWorkflowStore(AbstractWorkflowStore):
         ]
         for handler_id in to_delete:
             del self.handlers[handler_id]
+            self._forget_completion(handler_id)
         return len(to_delete)
+
+    def _forget_completion(self, handler_id: str) -> None:
+        """Drop the handler's entry from the eviction queue, if it has one."""
+        try:
+            self._terminal_queue.remove(handler_id)
+        except ValueError:
+            pass
 
     def _evict_oldest_completed(self) -> None:
         """Remove the oldest completed handlers when the cap is exceeded.
